@@ -36,7 +36,9 @@ static void note_sym(const uint8_t *p, int type) {
     seen[nseen].p = p; seen[nseen].type = type; nseen++;
 }
 
-static int unsupported;   /* set when a value contains something the model does not cover (abstract) */
+static int unsupported;   /* set when a value contains something the abstract-free model `JVal` does not cover (abstract, depth) */
+static int has_abs;       /* the value contains an abstract: it goes to the model with abstracts (`AVal`, driver commands aval / arow) */
+static int too_deep;
 static int has_nan;
 
 static void ser_bytes(const uint8_t *s) {
@@ -47,7 +49,7 @@ static void ser_bytes(const uint8_t *s) {
 }
 
 static void ser(Janet x, int depth) {
-    if (depth > 400) { unsupported = 1; fputs("nil", stdout); return; }
+    if (depth > 400) { unsupported = 1; too_deep = 1; fputs("nil", stdout); return; }
     switch (janet_type(x)) {
         case JANET_NUMBER: {
             double d = janet_unwrap_number(x); uint64_t u; memcpy(&u, &d, 8);
@@ -74,14 +76,17 @@ static void ser(Janet x, int depth) {
             break;
         }
         case JANET_ABSTRACT: {
-            /* outside the Lean model; for the boxed integers (types with compare / hash hooks) the payload is the content */
+            /* outside `JVal`, inside `AVal`: a <type name> <content> <NaN-boxed word> <address of the JanetAbstractType>.
+               For the boxed integers (types with compare / hash hooks) the content is the 8-byte payload the hooks read,
+               for every other abstract type it is the boxed word (identity). */
             void *p = janet_unwrap_abstract(x);
             const char *nm = janet_abstract_type(p)->name;
-            unsupported = 1;
+            unsupported = 1; has_abs = 1;
             fputs("a ", stdout);
             for (const char *q = nm; *q; q++) printf("%02x", (unsigned char) *q);
             if (!strcmp(nm, "core/s64") || !strcmp(nm, "core/u64")) { uint64_t v; memcpy(&v, p, 8); printf(" %016" PRIx64, v); }
             else printf(" %016" PRIx64, bits_of(x));
+            printf(" %016" PRIx64 " %016" PRIx64, bits_of(x), (uint64_t) (uintptr_t) janet_abstract_type(p));
             break;
         }
         default: printf("r %d %016" PRIx64, (int) janet_type(x), bits_of(x)); break;
@@ -239,13 +244,13 @@ static int run_pool(const char *path) {
     int *skip = calloc(n, sizeof(int));
     int32_t *hs = calloc(n, sizeof(int32_t));
     for (int32_t i = 0; i < n; i++) {
-        unsupported = 0; has_nan = 0;
+        unsupported = 0; has_nan = 0; has_abs = 0; too_deep = 0;
         printf("val %d ", i);
         ser(pool->data[i], 0);
         putchar('\n');
         hs[i] = janet_hash(pool->data[i]);
         skip[i] = has_nan;
-        printf("meta %d hash %d model %d nan %d", i, hs[i], unsupported ? 0 : 1, has_nan);
+        printf("meta %d hash %d model %d nan %d amodel %d", i, hs[i], unsupported ? 0 : 1, has_nan, (has_abs && !too_deep) ? 1 : 0);
         if (janet_checktype(pool->data[i], JANET_STRUCT)) printf(" len %d", janet_struct_length(janet_unwrap_struct(pool->data[i])));
         putchar('\n');
         check_fields(pool->data[i], i, 0);
